@@ -24,7 +24,11 @@ RULE = (
     "by the seeded transport (down to single bytes); injected faults: disconnect at an arbitrary "
     "byte offset of a request, right after a complete request, garbage bytes, oversized header, "
     "a peer that stops reading. Distinct = distinct client scripts; non-trivial = at least one "
-    "fault fired or at least two calls were in flight on one connection."
+    "fault fired or at least two calls were in flight on one connection. One scenario in eight "
+    "is a real director build (DirectorHandler) with 1-3 hostile peers on its socket (garbage, "
+    "oversized header, partial frame then close, idle connection, unknown procedure, attribute "
+    "of the handler that is not exposed, ill-typed arguments), compared with the same build "
+    "without them."
 )
 ASSUMPTIONS = [
     "a Unix stream socket neither loses, duplicates nor reorders bytes; only close, abort, garbage and stall are injected",
@@ -91,7 +95,27 @@ def _make_handler():
 CALLS = ["echo", "echo", "slow", "fail_usage", "fail_internal", "unpicklable", "sync_method", "big", "hidden", "nosuch", "badargs", "echo_big"]
 
 
+def gen_director_scenario(seed, tier):
+    """A real director build with hostile peers on its socket."""
+    sc = history.gen_history(seed, never=("bad",), nphases=1, max_size=5)
+    rng = random.Random(derive_seed(seed, "c16d"))
+    peers = []
+    for _ in range(rng.randint(1, 3)):
+        peers.append({
+            "kind": rng.choice(["garbage", "oversize_header", "partial_then_close", "connect_and_hold",
+                                "unknown_procedure", "hidden_attribute", "bad_arguments"]),
+            "at": rng.choice([0.0, 0.02, 0.1, 0.3, 0.8]),
+            "n": rng.randint(1, 40),
+        })
+    sc["peers"] = peers
+    sc["workload"] = "director"
+    sc["check"] = PROPERTY
+    return sc
+
+
 def gen_scenario(seed, tier="quick", opts=None):
+    if seed % 8 == 0:
+        return gen_director_scenario(seed, tier)
     rng = random.Random(seed)
     nconn = rng.randint(1, 5)
     clients = []
@@ -379,11 +403,119 @@ async def _main(world, sc, ctx):
     return None
 
 
+async def _hostile_peer(world, peer, log):
+    """One connection to the director's own socket that does not speak the protocol."""
+    from stepup.core.rpc import RPCCall, _encode_body, _encode_message
+    from sim.world import SOCKET_PATH
+
+    for _ in range(100_000):
+        if world.net is not None and SOCKET_PATH in world.net.servers:
+            break
+        await asyncio.sleep(0.01)
+    await asyncio.sleep(peer["at"])
+    try:
+        reader, writer = await asyncio.open_unix_connection(SOCKET_PATH)
+    except OSError:
+        log.append((peer["kind"], "refused"))
+        return
+    kind = peer["kind"]
+    n = peer["n"]
+    replies = b""
+    try:
+        if kind == "garbage":
+            writer.write(bytes((11 * (i + n)) % 256 for i in range(16 + n)))
+        elif kind == "oversize_header":
+            writer.write((3).to_bytes(8, "big") + (2**41 + n).to_bytes(8, "big"))
+        elif kind == "partial_then_close":
+            frame = _encode_message(1, _encode_body(RPCCall("get_step_info", (1,), {})))
+            writer.write(frame[: max(1, min(len(frame) - 1, n))])
+            await asyncio.sleep(0.05)
+            writer.close()
+            log.append((kind, "closed"))
+            return
+        elif kind == "connect_and_hold":
+            await asyncio.sleep(2.0 + n)
+        elif kind == "unknown_procedure":
+            writer.write(_encode_message(7, _encode_body(RPCCall("no_such_procedure", (n,), {}))))
+        elif kind == "hidden_attribute":
+            # attributes of the handler that are not exposed with @allow_rpc
+            name = ["interrupt", "suspend", "_stop_scheduling", "_interrupt", "workflow", "__init__"][n % 6]
+            writer.write(_encode_message(8, _encode_body(RPCCall(name, (), {}))))
+        elif kind == "bad_arguments":
+            writer.write(_encode_message(9, _encode_body(RPCCall("define_step", (), {"nonsense": n}))))
+        try:
+            replies = await asyncio.wait_for(reader.read(65536), timeout=3.0)
+        except (asyncio.TimeoutError, ConnectionError):
+            pass
+        log.append((kind, len(replies), replies[:16].hex()))
+    finally:
+        try:
+            writer.close()
+        except Exception:  # noqa: BLE001
+            pass
+
+
+def run_director_scenario(sc) -> Result:
+    """The same project is built twice: undisturbed, and with hostile peers on the socket."""
+    from sim.universe import Universe
+    from stepup.core.rpc import RemoteFailure
+
+    res = Result()
+    res.signature = history.scenario_signature(sc) + str(sc["peers"])
+    base = history.scratch_base()
+    sched = sc["schedule"]
+    outcomes = []
+    for name, peers in (("Q", []), ("H", sc["peers"])):
+        ch = Chooser(sched["seed"], mode=sched.get("mode", "seeded"))
+        uni = Universe(os.path.join(base, f"{sc['seed']}-{name}"), ch, name=name)
+        uni.sync_tree(sc["phases"][0]["project"])
+        log = []
+
+        async def user(world, peers=peers, log=log):
+            await asyncio.gather(*(_hostile_peer(world, p, log) for p in peers))
+
+        r = uni.build(dict(sc["phases"][0]["cfg"]), scratch=True, user=user if peers else None)
+        if r.harness_error is not None:
+            raise r.harness_error
+        res.builds += 1
+        res.vtime += r.vtime
+        outcomes.append((r, uni.projection() if r.ok else None, uni.tree() if r.ok else None, log))
+        for k, v in uni.world.stats.items():
+            res.stats[k] += v
+        uni.destroy()
+    (rq, pq, tq, _), (rh, ph, th, log) = outcomes
+    res.fingerprint = repr((rq.rc_value, rh.rc_value, log))
+    for kind, *rest in log:
+        res.stats["fault.peer_" + kind] += 1
+    if rh.exception is not None:
+        res.violate("R-rpc/director", "director-raised", f"director raised {type(rh.exception).__name__}: {rh.exception} with hostile peers {sc['peers']}", "director-raised")
+    elif rh.hang is not None:
+        res.violate("R-rpc/director", "director-blocked", f"director does not finish with hostile peers {sc['peers']}: {rh.hang}", "director-blocked")
+    elif rq.ok:
+        if rq.rc_value != rh.rc_value:
+            res.violate("R-rpc/director", "build-disturbed", f"return code {rh.returncode} with hostile peers, {rq.returncode} without", "build-disturbed")
+        elif rq.rc_value == 0:
+            from sim import dbview
+
+            d = dbview.diff_projections(history.strip_for_twin(ph), history.strip_for_twin(pq))
+            if d or th != tq:
+                res.violate("R-rpc/director", "build-disturbed", "graph or outputs differ from the undisturbed build: " + "; ".join(d[:4]), "build-disturbed")
+    # a reply to a hostile request is an error reply, never a value
+    for entry in log:
+        if len(entry) == 3 and entry[0] in ("unknown_procedure", "hidden_attribute", "bad_arguments") and entry[1] == 0:
+            res.stats["probe.hostile_request_unanswered"] += 1
+    res.nontrivial = bool(log)
+    res.sample = {"seed": sc["seed"], "workload": "director", "peers": sc["peers"], "log": [list(map(str, e)) for e in log][:4], "rc": rh.rc_value}
+    return res
+
+
 def run_scenario(sc) -> Result:
     import hashlib
     import json
     import logging
 
+    if sc.get("workload") == "director":
+        return run_director_scenario(sc)
     res = Result()
     res.signature = hashlib.sha256(json.dumps(sc["clients"], sort_keys=True).encode()).hexdigest()[:16]
     base = history.scratch_base()
@@ -521,6 +653,17 @@ def run_scenario(sc) -> Result:
 
 
 def shrink(sc):
+    if sc.get("workload") == "director":
+        from sim import shrink as shrinkmod
+
+        for k in range(len(sc["peers"])):
+            if len(sc["peers"]) > 1:
+                out = copy.deepcopy(sc)
+                del out["peers"][k]
+                yield out
+        for out in shrinkmod.shrink_history(sc):
+            yield out
+        return
     if sc["schedule"].get("mode") != "calm":
         out = copy.deepcopy(sc)
         out["schedule"] = {"seed": 0, "mode": "calm"}
